@@ -8,9 +8,9 @@ a unit (data / credit / stream / datagram / queue slot) is available or the obje
 and re-checks under the object's lock when woken. The ORDER of the two checks is the order of the Go code:
 
 * receive_stream.go readImpl, send_stream.go write, streams_map_incoming.go AcceptStream,
-  streams_map_outgoing.go OpenStreamSync test the close error FIRST;
-* datagram_queue.go Receive and Add test the queue FIRST (a queued datagram is still returned after the
-  close; a free send slot still accepts a datagram after the close).
+  streams_map_outgoing.go OpenStreamSync and datagram_queue.go Add test the close error FIRST;
+* datagram_queue.go Receive tests the queue FIRST (a datagram queued before the close is still returned
+  after it).
 
 Every public method of a mutex-protected object is one atomic step (DESIGN.md §6).
 -/
@@ -24,8 +24,8 @@ deriving Repr, DecidableEq
 
 /-- does the Go function look at the close error before it looks at the resource -/
 def CallKind.errFirst : CallKind → Bool
-  | .read | .write | .acceptStream | .openStreamSync => true
-  | .receiveDatagram | .sendDatagram => false
+  | .read | .write | .acceptStream | .openStreamSync | .sendDatagram => true
+  | .receiveDatagram => false
 
 structure Res where
   closeErr : Option Cause := none
